@@ -4,7 +4,7 @@ LEVEL = 'model_checking'
 ENGINE = 'E1'
 RULE = ('exhaustive enumeration of environment answers on real ANOVA/NICV/SNR distinguishers and the template builder: ALL 2^(B-1) kernel sequences for B = 1..5 (quick) / 1..7 (thorough) batches (the first batch of an '
         'object always runs kernel 1; later choices are forced through the scripted process_time clock, so the production argmin(_timings) code decides and a recorder verifies which kernel ran) x numba thread counts '
-        '{1,2,3,4,8,16} (quick) / 1..16 (thorough) x value pools {small integers in uint8/int16, dyadic fractions in float32/float64, 1000+dyadic in float32 (traces narrower than the precision)} x precision x class-set '
+        '{1,2,3,4,8,16} (quick) / 1..16 (thorough) x value pools {small integers in uint8/int16, dyadic fractions in float32/float64, 1000+dyadic and 1000+k/16384 (full float32 mantissa) in float32 (traces narrower than the precision)} x precision x class-set '
         'sizes {4, 9 (both kernels), 10, 64 (kernel 1 only)} with undeclared class values present; MIA and the t-test accumulator (single kernels) over the thread counts. A case = one (configuration, kernel sequence, '
         'thread count); a state = one (batch index, accumulator digest); non-trivial = a sequence that uses kernel 2 or a thread count > 1')
 ASSUMPTIONS = ['numpy/numba trusted', 'iteration-to-thread assignment inside one prange is not owned (disjoint writes; observed through the thread-count sweep)',
@@ -23,7 +23,7 @@ def bound(tier):
     return {'max_batches': 5 if tier == 'quick' else 7, 'thread_counts': [1, 2, 3, 4, 8, 16] if tier == 'quick' else list(range(1, 17)), 'class_set_sizes': [4, 9, 10, 64]}
 
 
-POOLS = [('exact', 'uint8'), ('signed', 'int16'), ('dyadic', 'float32'), ('dyadic', 'float64'), ('offset', 'float32')]
+POOLS = [('exact', 'uint8'), ('signed', 'int16'), ('dyadic', 'float32'), ('dyadic', 'float64'), ('offset', 'float32'), ('offsetfine', 'float32')]
 
 
 def shards(tier, seed):
@@ -41,6 +41,9 @@ def _pool(np, rng, pool, tdt, n, S):
     elif pool == 'signed': X = rng.randint(-8, 8, (n, S))
     elif pool == 'dyadic': X = rng.randint(-16, 16, (n, S)) / 8.0
     elif pool == 'offset': X = 1000.0 + rng.randint(-16, 16, (n, S)) / 8.0
+    # every value fills the 24-bit mantissa of float32 (10 integer + 14 fractional bits) so that already the sum of two of them is not a float32, while all sums and
+    # sums of squares of a few dozen of them are exact in float64: any accumulation done in the storage type shows as a broken bit-identity at float64 precision
+    elif pool == 'offsetfine': X = 1000.0 + (2 * rng.randint(-4096, 4096, (n, S)) + 1) / 16384.0
     else: raise ValueError(pool)
     return X.astype(tdt)
 
@@ -87,7 +90,7 @@ def _forced(col, ctx, np, shard):
         clock = env.install_clock(T); rec = env.install_recorder(T._TemplateBuildDistinguisherMixin)
         fams = ('tplbuild',)
         ksizes = (3, 9, 12)
-    exact = not (pool == 'offset' and prec == 'float32')
+    exact = not (pool in ('offset', 'offsetfine') and prec == 'float32')
     tol = TOL[prec]
     n = 2 * maxB
     S, W = (3, 2) if kind == 'partitioned' else (7, 1)          # 7 samples: more than, and not a multiple of, the thread counts 2, 3, 4
